@@ -108,19 +108,36 @@ impl ProcessState {
             dbfile.push("db.sqlite3");
             dbfile
         };
-        let must_create = !dbfile.exists();
-        let mut db: Connection;
+        let mut db: Connection = {
+            // Opening a brand-new database switches it to WAL mode, which
+            // SQLite refuses at once (SQLITE_BUSY, no waiting) when two
+            // connections try it at the same time: open one process at a time.
+            let mut open_lock = Lock::new(lock_manager.clone(), 0);
+            open_lock.wait_lock(LockType::Exclusive)?;
+            connect(&e, &dbfile)
+                .map_err(|e| RedoError::new(format!("could not connect: {}", e)))?
+        };
         {
-            let tx = if !must_create {
-                db = connect(&e, &dbfile)
-                    .map_err(|e| RedoError::new(format!("could not connect: {}", e)))?;
-                // Take the write lock up front: this transaction reads (schema
-                // version) and then writes (new run id). A deferred transaction
-                // that has to upgrade after another process committed fails at
-                // once with SQLITE_BUSY instead of honouring the busy timeout.
-                let tx = db
-                    .transaction_with_behavior(TransactionBehavior::Immediate)
-                    .map_err(RedoError::opaque_error)?;
+            // Take the write lock up front: this transaction reads (schema
+            // version) and then writes (new run id). A deferred transaction
+            // that has to upgrade after another process committed fails at
+            // once with SQLITE_BUSY instead of honouring the busy timeout.
+            let tx = db
+                .transaction_with_behavior(TransactionBehavior::Immediate)
+                .map_err(RedoError::opaque_error)?;
+            // Whether the tables still have to be created is decided under the
+            // write lock, not by looking for the file beforehand: several
+            // commands may be the first ones in a new project at the same time.
+            let must_create = tx
+                .query_row(
+                    "select count(*) from sqlite_master \
+                        where type = 'table' and name = 'Schema'",
+                    [],
+                    |row| row.get::<_, i64>(0),
+                )
+                .map_err(|e| RedoError::wrap(e, "schema check failed"))?
+                == 0;
+            if !must_create {
                 let ver: Option<i32> = tx
                     .query_row("select version from Schema", [], |row| row.get(0))
                     .optional()
@@ -133,14 +150,7 @@ impl ProcessState {
                         SCHEMA_VER
                     )));
                 }
-                tx
             } else {
-                helpers::unlink(&dbfile).map_err(RedoError::opaque_error)?;
-                db = connect(&e, &dbfile)
-                    .map_err(|e| RedoError::new(format!("could not connect: {}", e)))?;
-                let tx = db
-                    .transaction_with_behavior(TransactionBehavior::Immediate)
-                    .map_err(RedoError::opaque_error)?;
                 tx.execute(
                     "create table Schema \
                         (version int)",
@@ -189,8 +199,7 @@ impl ProcessState {
                     .map_err(|e| RedoError::wrap(e, "failed to insert initial Runid"))?;
                 tx.execute("insert into Files (name) values (?)", params![ALWAYS])
                     .map_err(|e| RedoError::wrap(e, "failed to insert ALWAYS file"))?;
-                tx
-            };
+            }
 
             if e.runid.is_none() {
                 tx.execute(
